@@ -80,7 +80,10 @@ def ProbeOK [DecidableEq J] (d : List (ModDesc J)) (pr : Probe J V) : Prop :=
       match ad.constant with
       | some c => pr.reply = .read c ∧ pr.calls = []
       | none => True
-    | _ => True
+    | .activate =>
+      -- a command can not be subscribed: refused like an unknown name, before anything is subscribed
+      ad.kind = .command → isNoSuch pr.reply = true ∧ pr.subsChanged = false
+    | .do_ => True
 
 instance [DecidableEq J] [DecidableEq V] (d : List (ModDesc J)) (pr : Probe J V) : Decidable (ProbeOK d pr) := by
   unfold ProbeOK
@@ -89,6 +92,7 @@ instance [DecidableEq J] [DecidableEq V] (d : List (ModDesc J)) (pr : Probe J V)
   · split
     · infer_instance
     · split <;> infer_instance
+    · infer_instance
     · infer_instance
 
 def probeOKB [DecidableEq J] [DecidableEq V] (d : List (ModDesc J)) (pr : Probe J V) : Bool := decide (ProbeOK d pr)
